@@ -8,13 +8,15 @@ CLAIMED = {
  "C08": ("§4 C08",
    "Bounded model checking (Kani/CBMC over the compiled jaq-json crate) of the number order and hash: for ALL non-NaN f64 and ALL isize "
    "(|int| <= 2^53 against floats, as the property allows) cmp is the IEEE/integer order, antisymmetric, transitive, coherent with ==, and "
-   "a == b implies the identical byte stream into the hasher; scalar kinds follow null < false < true < number < string. Narrow: BigInt, Dec, "
+   "a == b implies the identical byte stream into the hasher; Int vs a small value stored as BigInt compares exactly; unparsed decimal literals "
+   "(1.0 / 1.00 / 1e0) behave like their value; scalar kinds follow null < false < true < number < string. Narrow: BigInt vs Float, "
    "arrays, objects, sort/unique/group_by and IndexMap lookup itself are outside the claim.",
    "Trusts Kani 0.68/CBMC 6.11/CaDiCaL; dev-profile semantics; strings restricted to the empty string in the Val-level harnesses; "
    "number-vs-number comparison is decided on Num directly, not through Val (undecided there)."),
  "C09": ("§4 C09",
    "Bounded model checking of machine-integer + - * % neg and conversions of jaq_json::Num against a 128-bit model: for ALL isize operands "
    "the result is the exact integer, Int exactly when it fits isize and BigInt exactly when not (full symbolic 64x64 product included); "
+   "mixed and promoted arms hand their operands to num-bigint in source order; integer consumers see the same value in either representation; "
    "% for 10 literal divisors incl. -1/isize::MIN. Narrow: the VALUE of promoted results of + - * (num-bigint uses an x86 addcarry intrinsic "
    "Kani cannot execute; stubbed), BigInt x BigInt, floats/Dec, non-numeric operators and integer consumers are outside the claim.",
    "Stubs: <BigInt as Add/Sub/Mul<BigInt>> replaced by a dummy where only the promotion decision is asserted. % with a symbolic divisor is "
@@ -38,19 +40,23 @@ CLAIMED = {
    "alloc::fmt::format stubbed; V = MV."),
  "C15": ("§4 C15",
    "Bounded model checking of operator precedence: the real `impl Op for BinaryOp` is order-isomorphic to the manual's table for all 25 operators (625 pairs) with the "
-   "documented associativity; prec_climb::climb groups `a op1 b op2 c` as the table says for one operator per level (49 pairs quick, 144 thorough); "
-   "`a as $x | b op c` always binds `b op c` (real Term::climb). Narrow: lexer trivia, atoms, postfix `?`, and every shorthand are outside the claim.",
+   "documented associativity; prec_climb::climb groups `a op1 b op2 c` as the table says for one operator per level (49 pairs quick, 144 thorough) "
+   "and `a op1 b op2 c op3 d` as an independent reference parse (27 triples quick, 81 thorough); "
+   "`a as $x | b op c` and `a as $x | b as $y | c op d` extend bindings to the right (real Term::climb). Narrow: lexer trivia, atoms, postfix `?`, and every shorthand are outside the claim.",
    "climb1 is decided with operators carrying the table's levels (shown isomorphic to the real precedences by a separate harness), because a symbolic BinaryOp does not decide."),
  "C20": ("§4 C20",
    "Bounded model checking of the time kernels at V = MV: broken-down arrays over ANY six isize fields never overflow and are accepted only with every field in its calendar "
-   "range (DateTime carrying exactly those fields); ANY f64 seconds: NaN/inf/out-of-range rejected, accepted => floor; float epochs: NaN rejected, result == trunc(f*1e6). "
+   "range (DateTime carrying exactly those fields); a non-integer in an integer field is rejected; ANY f64 seconds: NaN/inf/out-of-range rejected, accepted => floor; "
+   "float epochs: NaN rejected, result == trunc(f*1e6); E2: no arithmetic panic site in the time functions. "
    "Narrow: jiff's calendar arithmetic vs an independent days-from-civil, strftime/strptime, ISO text, time zones, and mktime/gmtime's zoned conversions are outside the claim.",
    "jiff::Error's Display stubbed; jiff's own range checks are executed (DateTime::new) but Timestamp::from_second/from_microsecond error paths do not decide and are outside."),
  "C10": ("§4 C10",
    "Bounded model checking of the position kernels (PosUsize::wrap, abs_bound, abs_index, skip_take, Val::range_int, Num::as_pos_usize) "
    "against an independent i128 position model: for ALL usize lengths and ALL signed positions (full usize magnitude, so big-integer "
-   "indices too), negative counts from the end, bounds clip to [0,len], null is open, skip+take <= len. Narrow: objects, has/length/keys, "
-   "destructuring and update semantics through the interpreter are outside the claim.",
+   "indices too), negative counts from the end, bounds clip to [0,len], null is open, skip+take <= len; character positions equal byte "
+   "positions on strings of one-byte characters incl. an invalid byte (len <= 2); bytes_splice == old[..skip] ++ repl ++ old[skip+take..] "
+   "for all contents and lengths <= 4 (MIR + library contracts, z3/cvc5). Narrow: multi-byte characters, objects, has/length/keys, "
+   "destructuring and update semantics through Val / the interpreter are outside the claim.",
    "Assumes the PosUsize representation invariant (negative => magnitude >= 1), itself shown to be established by as_pos_usize."),
 }
 
@@ -79,10 +85,10 @@ def main():
             "thorough_cmd": f"bin/check {pid} --tier thorough",
             "evidence_file": f"/verif/evidence/{pid}.json",
             "replay_cmd_template": "bin/check --replay {path}",
-            "engine": "kani-cbmc" + ("+mir-smt" if pid in ("C05", "C20") else ""),
+            "engine": "kani-cbmc" + ("+mir-smt" if pid in ("C05", "C10", "C20") else ""),
             "level_claimed": {"category": "model_checking", "text": text, "design_ref": ref},
             "level_note": note,
-            "technique": "solver-based bounded model checking of the real code (Kani 0.68 -> CBMC 6.11 -> CaDiCaL SAT) with in-crate harnesses over kani::any() inputs; counterexamples replayed natively by concrete playback" + ("; plus MIR -> SMT-LIB2 (z3 and cvc5) over-approximate encoding of every arithmetic panic site, candidates replayed through the jaq binary" if pid in ("C05", "C20") else ""),
+            "technique": "solver-based bounded model checking of the real code (Kani 0.68 -> CBMC 6.11 -> CaDiCaL SAT) with in-crate harnesses over kani::any() inputs; counterexamples replayed natively by concrete playback" + ("; plus MIR -> SMT-LIB2 (z3 and cvc5) over-approximate encoding of every arithmetic panic site, candidates replayed through the jaq binary" if pid in ("C05", "C20") else "") + ("; plus symbolic execution of the MIR of bytes_splice with library contracts over SMT arrays (z3 and cvc5)" if pid == "C10" else ""),
         })
     m = {
         "version": 1,
@@ -97,7 +103,7 @@ def main():
         "engines": [
             {"name": "kani-cbmc", "path": "bin/check", "serves_properties": sorted(CLAIMED),
              "kind_free_text": "E1: Kani 0.68 / CBMC 6.11 bounded model checking of harness modules mounted into an overlay copy of /repo"},
-            {"name": "mir-smt", "path": "lib/e2.py", "serves_properties": ["C05", "C20"],
+            {"name": "mir-smt", "path": "lib/e2.py", "serves_properties": ["C05", "C10", "C20"],
              "kind_free_text": "E2: MIR -> SMT-LIB2 obligation checker (z3, cross-checked with cvc5) for integer kernels CBMC cannot decide"},
         ],
         "checks": checks,
